@@ -8,6 +8,7 @@ pub mod procspec;
 pub mod prune;
 pub mod reclaim;
 pub mod sem;
+pub mod ship;
 pub mod staticck;
 pub mod strings;
 
@@ -47,6 +48,7 @@ pub fn dispatch(ctx: &mut Ctx) {
         "gen" => sem::dump(ctx),
         "crash" => crash::run(ctx),
         "front" => front::run(ctx),
+        "ship" => ship::run(ctx),
         "static" => staticck::run(ctx),
         "layout" => layout::run(ctx),
         "reclaim" => reclaim::run(ctx),
